@@ -38,6 +38,7 @@ def make_spec(rng, present, name=True, distinct_vals=True):
 
 class C18(PropertyCheck):
     pid = "C18"
+    release_too = True       # both build profiles (review 2: the both-modes theorems must be tied to a release build too)
     source_tables = ["AssetBin", "BIN_HEADER"]   # tables / constants regenerated from /repo's source (gen/srctables.py)
     rule = ("every spec family of the property is enumerated through the public API: each of the 51 flagged fields present alone "
             "(with and without a name), every adjacent pair, all-absent, all-present, every subset of the fields of one flag byte "
